@@ -49,6 +49,7 @@ def run(chk):
         swap_kernel(chk, it)
         deposit_kernel(chk, it)
         withdraw_kernel(chk, it)
+        backing_kernel(chk, it)
     finally:
         BM.CONFIG['symbolic_ops'] = False
         it.arith_feasibility = False
@@ -183,6 +184,42 @@ def withdraw_kernel(chk, it):
         chk.cover_int('partial withdrawal with non-zero payout/' + name, list(s.pc) + [z3.ULT(w, LQ), z3.UGT(lo, 5), z3.UGT(ro, 5)])
     if not n:
         raise Inconclusive('withdraw has no returning path')
+
+
+def backing_kernel(chk, it):
+    """liquidity tokens handed out by a deposit batch never exceed the liquidity the pool records for it.
+    One request: decided on process_deposits_for_single_pool itself (C15's settlement kernel with the backing claim switched
+    on).  Two requests: the per-request formula and the totals are those kernels' (the same closure runs per request, the
+    totals are saturating folds); what is decided here is the arithmetic of handing out two rounded-down shares."""
+    from props import c15
+    from mirsym.bigmodels import isqrt_bv
+    c15.deposit_settlement(chk, it, 1, mode='func', backing=True)
+    G.reset()
+    minted = z3.BitVec('minted_liquidity', 128)
+    ls = [z3.BitVec('dep%d_lefts' % i, 128) for i in range(2)]
+    rs = [z3.BitVec('dep%d_rights' % i, 128) for i in range(2)]
+    pc = [z3.ULE(x, c15.MAX_COINVAL) for x in ls + rs] + [z3.UGE(x, 1) for x in ls + rs] + [z3.ULE(minted, CAP)]
+    tl, tr = c15.sat_add(c15.sat_add(bv(0, 128), ls[0]), ls[1]), c15.sat_add(c15.sat_add(bv(0, 128), rs[0]), rs[1])
+    total_mt = c15.sat_mul(isqrt_bv(tl), isqrt_bv(tr))
+    my = [c15.sat_mul(isqrt_bv(l), isqrt_bv(r)) for l, r in zip(ls, rs)]
+    shares = [z3.Int('share_%d' % i) for i in range(2)]
+    for sh, m in zip(shares, my):
+        pc.append(z3.And(sh >= 0, sh * I(total_mt) <= I(minted) * I(m), (sh + 1) * I(total_mt) > I(minted) * I(m)))
+    inputs = {'minted_liquidity': minted, 'shares_exceed_total': z3.If(I(my[0]) + I(my[1]) > I(total_mt), bv(1, 8), bv(0, 8))}
+    for i in range(2):
+        inputs['dep%d_lefts' % i] = ls[i]
+        inputs['dep%d_rights' % i] = rs[i]
+    chk.obligation('FUNC/two-depositors-receive-no-more-than-was-minted', pc, shares[0] + shares[1] <= I(minted), inputs,
+                   replay=lambda mo: replay_two_deposits(chk, mo, inputs), arith='int',
+                   bound='shares = floor(minted * isqrt(l_i)*isqrt(r_i) / (isqrt(l_0+l_1)*isqrt(r_0+r_1))); amounts in [1, 2^120]')
+
+
+def replay_two_deposits(chk, model, inputs):
+    """two deposits into a new MEL/SYM-keyed pool of a chain that has none (so that `minted` is the pool's whole liquidity)"""
+    from props import c15
+    ev = lambda t: harness.model_int(model, t)
+    deps = [(ev(inputs['dep%d_lefts' % i]), ev(inputs['dep%d_rights' % i])) for i in range(2)]
+    return c15.run_deposit_scenario(False, 1, 1, 1, deps)
 
 
 # ---------------------------------------------------------------------------------------------------------------
